@@ -5,18 +5,11 @@ wraps every change, `finalize` restores the wrappers - accepting gives `new`, re
 -/
 import XmlDiffModel.Proofs.TextMark
 import XmlDiffModel.Proofs.Dmp
+import XmlDiffModel.Model.Engine
 
 namespace XmlDiffModel
 namespace TextMark
 open Tree Undo Dmp
-
-def ofD : DOp → Op
-  | .del => .del
-  | .ins => .ins
-  | .eq => .eq
-
-/-- the segment list the formatter receives from the engine -/
-def ofDiff (d : Diff) : List Seg := d.map (fun p => { op := ofD p.1, text := p.2 })
 
 theorem ofDiff_noRep (d : Diff) : NoRep (ofDiff d) := by
   intro x hx
